@@ -255,12 +255,16 @@ func WindowFrameSet(partition Partition, expr parser.AnalyticClause) []WindowFra
 		case parser.PRECEDING:
 			if !framePosition.Unbounded.IsEmpty() {
 				idx = 0
+			} else if current < framePosition.Offset {
+				idx = -1
 			} else {
 				idx = current - framePosition.Offset
 			}
 		case parser.FOLLOWING:
 			if !framePosition.Unbounded.IsEmpty() {
 				idx = length - 1
+			} else if length-current < framePosition.Offset {
+				idx = length
 			} else {
 				idx = current + framePosition.Offset
 			}
